@@ -147,6 +147,9 @@ func (ex *Exec) loopHeader(fr *Frame, h *ssa.BasicBlock, ord int, st *State, phi
 		for _, inv := range spec.Invariants {
 			ex.oblige(st, "inv-step", fmt.Sprintf("loop%d:%s", ord, inv.Label), inv.Props, env.boolTerm(inv.Expr), h.Instrs[0].Pos(), fk)
 		}
+		for _, ft := range ex.loopFrame(fr, st, h) {
+			ex.oblige(st, "inv-step", fmt.Sprintf("loop%d:frame:%s", ord, ft.label), nil2props(ex.con), ft.t, h.Instrs[0].Pos(), fk)
+		}
 		if spec.Decreases != nil {
 			m := env.intTerm(spec.Decreases)
 			ex.oblige(st, "decreases", fmt.Sprintf("loop%d", ord), []string{"C04"}, And(Lt(m, lc.measure), Ge(lc.measure, Int(0))), h.Instrs[0].Pos(), fk)
@@ -173,6 +176,9 @@ func (ex *Exec) loopHeader(fr *Frame, h *ssa.BasicBlock, ord int, st *State, phi
 	if ex.recording == nil {
 		for _, inv := range spec.Invariants {
 			st.assume(env.boolTerm(inv.Expr))
+		}
+		for _, ft := range ex.loopFrame(fr, st, h) {
+			st.assume(ft.t)
 		}
 	}
 	lc := &loopCtx{}
@@ -222,6 +228,35 @@ func (ex *Exec) havocSet(st *State, ws *WriteSet) {
 		}
 	}
 	ex.bumpAlloc(st)
+}
+
+func nil2props(c *Contract) []string {
+	if c == nil {
+		return nil
+	}
+	return c.Props
+}
+
+// loopFrame: automatically generated frame invariants of a loop in the function under
+// verification: what the loop may write but the contract's modifies clause does not
+// name is as on function entry (witness form, same witnesses as the final frame check).
+func (ex *Exec) loopFrame(fr *Frame, st *State, h *ssa.BasicBlock) []frameTerm {
+	if !fr.top || ex.con == nil || ex.recording != nil {
+		return nil
+	}
+	ws := ex.loopSets[h]
+	if ws == nil || ws.All {
+		return nil
+	}
+	env := ex.baseEnv(fr, ex.entry)
+	env.old = ex.entry
+	env.live = st
+	c := *ex.con
+	ms := ex.resolveModifies(env, &c)
+	if ms.All {
+		return nil
+	}
+	return ex.frameTerms(st, ms, sortedKeys(ws.Names))
 }
 
 // loopWriteSet: run the loop body once in record mode from a fully havocked state.
@@ -325,9 +360,11 @@ func (ex *Exec) verifyFunction(fn *ssa.Function) (rep *FuncReport) {
 	ex.inlined = map[string]bool{}
 	ex.loopSets = map[*ssa.BasicBlock]*WriteSet{}
 	ex.covers = map[string]bool{}
+	ex.coverN = map[string]int{}
 	ex.noDecreases = nil
 	ex.retCount = 0
 	ex.iterMaps = map[*Cell]Value{}
+	ex.named = map[string]*Term{}
 	rep = &FuncReport{Key: key, HasContract: ex.con != nil}
 	defer func() {
 		if r := recover(); r != nil {
@@ -454,20 +491,37 @@ func (ex *Exec) frameCheck(env *Env, c *Contract, st *State) {
 		return
 	}
 	ex.resolveMemNew(env, ms)
-	entry := ex.entry
-	notFresh := func(x *Term) *Term { return Le(x, entry.Alloc) }
 	var dirty []string
 	for n := range st.Dirty {
 		dirty = append(dirty, n)
 	}
 	sort.Strings(dirty)
-	for _, d := range dirty {
+	for _, ft := range ex.frameTerms(st, ms, dirty) {
+		ex.oblige(st, "frame", ft.label, c.Props, ft.t, ex.fn.Pos(), ex.fnKey)
+	}
+}
+
+type frameTerm struct {
+	label string
+	t     *Term
+}
+
+// frameTerms builds, for each written array in names, the witness-form statement
+// "entries outside the modifies set are as on entry".
+func (ex *Exec) frameTerms(st *State, ms *ModSet, names []string) []frameTerm {
+	entry := ex.entry
+	var out []frameTerm
+	notFresh := func(x *Term) *Term { return Le(x, entry.Alloc) }
+	for _, d := range names {
 		switch {
 		case d == "*":
-			ex.oblige(st, "frame", "unknown-effects", c.Props, tFalse, ex.fn.Pos(), ex.fnKey)
+			out = append(out, frameTerm{"unknown-effects", tFalse})
 		case strings.HasPrefix(d, "H:"):
 			name := d[2:]
-			cur := st.Heap[name]
+			cur, ok := st.Heap[name]
+			if !ok {
+				continue
+			}
 			old, had := entry.Heap[name]
 			if !had {
 				old = Var("H0."+name, cur.Sort)
@@ -475,24 +529,21 @@ func (ex *Exec) frameCheck(env *Env, c *Contract, st *State) {
 			if cur == old {
 				continue
 			}
-			if strings.HasPrefix(name, "box:") {
+			if strings.HasPrefix(name, "box:") || name == "#chanclosed" {
 				continue
 			}
 			if strings.HasPrefix(name, "map") {
-				tk := name[strings.Index(name, ":")+1:]
-				for _, l := range []string{".tag", ".val", ".arr", ".off", ".len", ".cap"} {
-					tk = strings.TrimSuffix(tk, l)
-				}
 				w := Var("fw.map", SInt)
 				hyp := notFresh(w)
+				rest := name[strings.Index(name, ":")+1:]
 				for mk, ids := range ms.Maps {
-					if strings.HasPrefix(name[strings.Index(name, ":")+1:], mk) {
+					if strings.HasPrefix(rest, mk) {
 						for _, id := range ids {
 							hyp = And(hyp, Ne(w, id))
 						}
 					}
 				}
-				ex.oblige(st, "frame", name, c.Props, Implies(hyp, Eq(Select(cur, w), Select(old, w))), ex.fn.Pos(), ex.fnKey)
+				out = append(out, frameTerm{name, Implies(hyp, Eq(Select(cur, w), Select(old, w)))})
 				continue
 			}
 			w := Var("fw.obj", SInt)
@@ -500,21 +551,27 @@ func (ex *Exec) frameCheck(env *Env, c *Contract, st *State) {
 			for _, id := range ms.Heap[name] {
 				hyp = And(hyp, Ne(w, id))
 			}
-			ex.oblige(st, "frame", name, c.Props, Implies(hyp, Eq(Select(cur, w), Select(old, w))), ex.fn.Pos(), ex.fnKey)
+			out = append(out, frameTerm{name, Implies(hyp, Eq(Select(cur, w), Select(old, w)))})
 		case strings.HasPrefix(d, "G:"):
 			name := d[2:]
-			if ms.Ghost[name] || name == "maxalloc" || name == "nalloc" {
+			if ms.Ghost[name] {
 				continue
 			}
-			cur := st.Ghost[name]
+			cur, ok := st.Ghost[name]
+			if !ok {
+				continue
+			}
 			old, had := entry.Ghost[name]
 			if !had {
 				old = Var("G0."+name, cur.Sort)
 			}
-			ex.oblige(st, "frame", "#"+name, c.Props, Eq(cur, old), ex.fn.Pos(), ex.fnKey)
+			out = append(out, frameTerm{"#" + name, Eq(cur, old)})
 		case strings.HasPrefix(d, "M:"):
 			name := d[2:]
-			cur := st.Mem[name]
+			cur, ok := st.Mem[name]
+			if !ok {
+				continue
+			}
 			old, had := entry.Mem[name]
 			if !had {
 				as := SArr2I
@@ -532,7 +589,8 @@ func (ex *Exec) frameCheck(env *Env, c *Contract, st *State) {
 					}
 				}
 			}
-			ex.oblige(st, "frame", name, c.Props, Implies(hyp, Eq(cur.read(wa, wi), old.read(wa, wi))), ex.fn.Pos(), ex.fnKey)
+			out = append(out, frameTerm{name, Implies(hyp, Eq(cur.read(wa, wi), old.read(wa, wi)))})
 		}
 	}
+	return out
 }
